@@ -6,7 +6,7 @@ ROOT = Path(__file__).resolve().parent.parent
 props = [json.loads(l) for l in open(ROOT / "properties.jsonl")]
 TB = ("Trusted: Lean 4.33 kernel (axioms propext, Classical.choice, Quot.sound only; audited per theorem on every run, leanchecker in the "
       "thorough tier); the translators tools/fpextract.py (constants/tables), tools/fpsites.py (token skeleton of every file the property's "
-      "operations execute, incl. called names and macro metavariables) and tools/fpkernels.py (expression-level translation of 179 functions "
+      "operations execute, incl. called names and macro metavariables) and tools/fpkernels.py (expression-level translation of 189 functions "
       "into Lean, each with a proved tie `Gen.K.f = Model.f`, vocabulary in lean/Fpdec/Gen/Rt.lean) — all re-run on /repo on every check; the "
       "correspondence run fpdrv (real crate) vs fpmodel (compiled Lean model) that ties the remaining hand-written model functions to the "
       "code; rustc/std semantics of the modelled items (DESIGN.md sections 2.2 and 3).")
